@@ -243,6 +243,9 @@ class Builder:
                 if pair:
                     return Bin(self.pick(['+', '-', '*']), pair[0], pair[1], t=INT)
             l = self.num_expr(depth - 1)
+            if op in '/%' and 'faults' in self.F and self.chance(6) and any(isinstance(n_, (Var, Call, Index)) for n_ in walk(l)):
+                # a constant divisor that is zero only on the machine (a non-zero multiple of 2^(8 ws)): division_by_zero at run time
+                return Bin(op, l, Lit('int', (1 << (8 * self.ws)) * self.pick([1, 1, 2, -1]), None, t=INT), t=INT)
             if op in '/%' and not ('faults' in self.F and self.chance(20)):
                 r = Lit('int', self.pick([1, 2, 3, 7, 10, -1, -3]) if 'bigvals' in self.F else self.pick([1, 2, 3, 7, 10]), None, t=INT)
             else:
@@ -1013,6 +1016,10 @@ class Builder:
         return self.bool_expr(2)
 
     def cond_expr(self):
+        if 'bytes' in self.F and self.chance(5):
+            # `(E * 256 + k) is byte` used directly as a truth value: only the low byte decides (k == 0: false although E != 0)
+            k = self.pick([0, 0, 1, 255])
+            return Is(Paren(Bin('+', Bin('*', Paren(self.int_expr(1), t=INT), Lit('int', 256, None, t=INT), t=INT), Lit('int', k, None, t=INT), t=INT), t=INT), BYTE, t=BYTE)
         if self.chance(80):
             return self.bool_expr(self.size['expr_depth'])
         return self.truthy_operand(1)
